@@ -119,6 +119,14 @@ class Rec:
         return f"Rec<{self.cls.__name__}>({self.f})"
 
 
+class _Helper:
+    """interpreter-provided method of a symbolic value (int.bit_length, bin(x).count): called directly, its
+    exceptions are engine errors and never taken for exceptions of the code under test"""
+
+    def __init__(self, fn):
+        self.fn = fn
+
+
 class BoundRec:
     def __init__(self, obj, fn):
         self.obj = obj
@@ -905,6 +913,8 @@ class Interp:
     def invoke(self, f, args, kwargs=None):
         """call a callable the way the target code would; interpret when symbolic data is involved"""
         kwargs = kwargs or {}
+        if isinstance(f, _Helper):
+            return f.fn(*args, **kwargs)
         if isinstance(f, BoundRec):
             return self.invoke(f.fn, [f.obj] + list(args), kwargs)
         try:
@@ -1017,8 +1027,10 @@ class Interp:
     def native(self, f, args, kwargs):
         try:
             return f(*args, **kwargs)
-        except (NotEncodable, Inconclusive, Unwind, _Restart, _Dead, _TargetRaise, _PathAbort, _MergeFail):
+        except (NotEncodable, Inconclusive, Unwind, _Restart, _Dead, _TargetRaise, _PathAbort, _MergeFail, _PureFork):
             raise
+        except (z3.Z3Exception, MemoryError, RecursionError) as e:   # the engine failed, not the code under test
+            raise Inconclusive(f"engine failure inside a native call: {type(e).__name__}: {e}")
         except Exception as e:      # the real code raised on concrete data
             raise _TargetRaise(type(e).__name__, self.g)
 
@@ -1120,9 +1132,9 @@ class Interp:
             return p
         if isinstance(o, SI):
             if name == "bit_length":
-                return lambda: self.bit_length(o)
+                return _Helper(lambda: self.bit_length(o))
             if name == "bit_count":
-                return lambda: self.popcount(o)
+                return _Helper(lambda: self.popcount(o))
             if name in ("real", "numerator"):
                 return o
             raise NotEncodable(f"int.{name} on a symbolic int")
@@ -1132,7 +1144,7 @@ class Interp:
                     if s == "1":
                         return self.popcount(o.x)
                     raise NotEncodable("bin(x).count of something else than '1'")
-                return count
+                return _Helper(count)
             raise NotEncodable(f"bin(x).{name}")
         for c in type(o).__mro__:
             if (c, name) in self.attr_stubs:
@@ -1149,6 +1161,8 @@ class Interp:
             return getattr(o, name)
         except AttributeError:
             raise _TargetRaise("AttributeError")
+        except (z3.Z3Exception, MemoryError, RecursionError, NotEncodable, Inconclusive, Unwind):
+            raise
         except Exception as e:
             raise _TargetRaise(type(e).__name__)
 
@@ -1295,6 +1309,8 @@ class Interp:
                         self._fail_merge(self.merge_stack[-1:])
                 try:
                     o[i] = v
+                except (z3.Z3Exception, MemoryError, RecursionError, NotEncodable, Inconclusive, Unwind):
+                    raise
                 except Exception as e:
                     raise _TargetRaise(type(e).__name__)
                 return
@@ -1698,6 +1714,8 @@ class Interp:
                 raise NotEncodable("subscript of a symbolic value")
             try:
                 return o[i]
+            except (z3.Z3Exception, MemoryError, RecursionError, NotEncodable, Inconclusive, Unwind):
+                raise
             except Exception as ex:
                 raise _TargetRaise(type(ex).__name__)
         if isinstance(e, ast.Slice):
